@@ -1188,7 +1188,8 @@ EXPORT errno_t _wcsnorm_s_chk(wchar_t *restrict dest, rsize_t dmax,
         return RCNEGATE(ENOMEM);
     }
 
-    rc = _wcsnorm_reorder_s_chk(tmp_ptr, len + 2, dest, len, destbos);
+    /* the scratch buffer has its own size, not dest's */
+    rc = _wcsnorm_reorder_s_chk(tmp_ptr, len + 2, dest, len, BOS_UNKNOWN);
     if (unlikely(rc)) {
         if (tmp)
             free(tmp);
